@@ -402,9 +402,11 @@ def check_geometry(ctx, res, batch, N, n_points):
             if below:
                 rem, area, vol, arem = scal
                 lhs, rhs = area - 2 * k * rem, 3 * vol
-                if abs(lhs - rhs) > geo_tol(site, k) + 1e-9 * abs(rhs):
+                if math.isfinite(lhs) and math.isfinite(rhs) and abs(lhs - rhs) > geo_tol(site, k) + 1e-9 * abs(rhs):
                     res.violate('geo-identity-' + site, 'area - 2k*gbRemoval != 3*volume', case, lhs, rhs)
-                if min(rem, area, vol) < -geo_tol(site, k) or not all(math.isfinite(v) for v in scal[:3]):
+                if site in ('edge', 'corner') and 1 - k / KMAX[site] < 1e-12 and not all(math.isfinite(v) for v in scal[:3]):
+                    res.near_tie_skipped += 1           # within rounding of the singular limit
+                elif min(rem, area, vol) < -geo_tol(site, k) or not all(math.isfinite(v) for v in scal[:3]):
                     res.violate('geo-negative-' + site, 'a geometric factor is negative or not finite below the limit', case, scal, '>= 0')
         # sphere values at k = 0
         with np.errstate(all='ignore'):
@@ -419,7 +421,7 @@ def check_grid(ctx, res, N, n_grid):
     for site in ('gb', 'edge', 'corner'):
         kmax = KMAX[site]
         off = ctx.rng.random()
-        ks = sorted(set([kmax * (i + off) / n_grid for i in range(n_grid)] + [kmax * (1 - 10.0 ** (-j)) for j in range(1, 15)]
+        ks = sorted(set([kmax * (i + off) / n_grid for i in range(n_grid)] + [kmax * (1 - 10.0 ** (-j)) for j in range(1, 13)]
                         + [10.0 ** (-j) for j in range(2, 13)] + [0.0]))
         ks = np.array([k for k in ks if k < kmax])
         d = cl[site]()
@@ -850,6 +852,8 @@ def check_ops(ctx, res, batch, N, n_seq):
                     if kcur >= KMAX[cur['site']]:
                         res.violate('factor-sentinel-at-limit', 'a factor getter returned a value (the -1 sentinel of the description) instead of raising: energy ratio at/above the limit',
                                     dict(case, at=len(impl) - 1, current=dict(cur)), got, 'ValueError')
+                    elif cur['site'] in ('edge', 'corner') and 1 - kcur / KMAX[cur['site']] < 1e-9:
+                        res.near_tie_skipped += 1       # within rounding of the singular limit: 0/0-type quotient, value is noise (may be NaN)
                     elif got < -geo_tol(cur['site'], kcur) or not math.isfinite(got):
                         res.violate('factor-negative-from-getter', 'a factor getter returned a negative / non-finite value below the limit',
                                     dict(case, at=len(impl) - 1, current=dict(cur)), got, '>= 0')
